@@ -872,3 +872,56 @@ def gen_C10(rng, count, tier):
             evs = evs[:pos] + [mid] + ([] if mid != "turn" else evs[pos:])
         toks = ["kind:" + kind, "root:" + hx(FSROOT.encode())]
         yield ("life", " ".join(toks + evs + tail))
+
+
+# ------------------------------------------------------------------------------------ C11
+
+def rand_bytes(rng, n):
+    return bytes(rng.randrange(256) for _ in range(n))
+
+
+def fuzz_api(rng):
+    k = rng.randrange(14)
+    if k == 0: return "read:%d" % pick(rng, [0, 1, 2, 5, 16384, 20000])
+    if k == 1: return "readall"
+    if k == 2: return "avail"
+    if k == 3: return "status:%d:%s" % (pick(rng, CODES), pick(rng, REASONS))
+    if k == 4: return "hdr:%s:%s:%s" % (hx(pick(rng, HN)), hx(pick(rng, HV)), pick(rng, ["r", "a"]))
+    if k == 5: return "wh"
+    if k == 6: return "write:" + hx(rand_bytes(rng, pick(rng, [0, 1, 7, 100])))
+    if k == 7: return "err:%d:~" % pick(rng, [400, 404, 500, 200])
+    if k == 8: return "redir:%s:%d" % (hx(b"/x"), rng.randrange(2))
+    if k == 9: return "close"
+    if k == 10: return "snap"
+    if k == 11: return "json:%s:200" % hx(b"{}")
+    return "readall"
+
+
+def gen_C11(rng, count, tier):
+    for i in range(count):
+        react = []
+        for sig in ("hp", "rr", "rcf", "bw", "dc"):
+            if rng.random() < 0.45:
+                react += ["@" + sig] + [fuzz_api(rng) for _ in range(rng.randrange(1, 4))] + ["@end"]
+        evs = []
+        if rng.random() < 0.2:
+            evs.append("prebuf:" + hx(pick(rng, [b"GET / HTTP/1.1\r\n\r\n", b"BAD\r\n\r\n", b"GE"])))
+        evs.append("new")
+        base = pick(rng, [valid_head(rng, cl=pick(rng, [None, b"0", b"3", b"10", b"-1", b"abc"])) + b"\r\n\r\n" + rand_bytes(rng, rng.randrange(0, 12)),
+                          bad_head(rng) + b"\r\n\r\n", rand_bytes(rng, rng.randrange(0, 40)), b"\r\n\r\n", b""])
+        pieces = cuts(rng, base) if base else []
+        for _ in range(rng.randrange(2, 14)):
+            k = rng.randrange(12)
+            if k < 4 and pieces:
+                evs.append("feed:" + hx(pieces.pop(0)))
+            elif k == 4:
+                evs.append("feed:" + hx(rand_bytes(rng, rng.randrange(0, 9))))
+            elif k == 5:
+                evs.append(pick(rng, ["ack:1", "ack:19", "ack:100000", "ackall"]))
+            elif k == 6:
+                evs.append("peerclose")
+            elif k == 7:
+                evs.append("turn")
+            else:
+                evs.append(fuzz_api(rng))
+        yield ("sock", " ".join(react + evs))
